@@ -54,8 +54,12 @@ HINTS = {
     'deque': lambda t: collections.deque[t], 'ChainMap': lambda t: collections.ChainMap[str, t],
     'MutableMapping': lambda t: cabc.MutableMapping[str, t],
 }
-KINDS = ['ChainMapDD', 'OneShot', 'OneShotExplode', 'SizedOneShot', 'SizedOneShotExplode', 'SizedReversibleOneShot', 'generator', 'map', 'zip', 'enumerate', 'reversed', 'StringIO', 'SpyDefaultDict',
+KINDS = ['ChainMapDD', 'CursorOneShot', 'CursorOneShotExplode', 'OneShot', 'OneShotExplode', 'SizedOneShot', 'SizedOneShotExplode', 'SizedReversibleOneShot', 'generator', 'map', 'zip', 'enumerate', 'reversed', 'StringIO', 'SpyDefaultDict',
          'SpyList', 'SpyTuple', 'SpyDict', 'SpySet', 'SpyDeque', 'SpySeq', 'SpyMap', 'SpyIterable', 'SpyContainer', 'SpyCollection']
+
+
+# hints whose check treats everything that is structurally a Collection as re-iterable (known finding, see _sig_cursor)
+CURSOR_KNOWN_HINTS = ('Collection', 'Container', 'Iterable', 'TIterable', 'OptIterable', 'UnionCollMap')
 
 
 def _generate(rng, run, tier):
@@ -63,10 +67,14 @@ def _generate(rng, run, tier):
     kinds = KINDS
     if rng.random() < 0.9:
         # avoid switch for known finding C10-chainmap-over-defaultdict: most cases steer around it
-        kinds = KINDS[1:]
-    return {'hint': rng.choice(list(HINTS)), 'item': rng.choice(list(ITEMS)), 'kind': rng.choice(kinds),
+        kinds = KINDS[1:]       # (the cursor kinds: see below)
+    case = {'hint': rng.choice(list(HINTS)), 'item': rng.choice(list(ITEMS)), 'kind': rng.choice(kinds),
             'content': rng.choice(['good', 'good', 'bad', 'mixed', 'empty']), 'n': rng.choice([1, 2, 3, 5]),
             'conf': conf, 'draws': [0, 1, rng.getrandbits(32)]}
+    if case['kind'].startswith('CursorOneShot') and case['hint'] in CURSOR_KNOWN_HINTS and rng.random() < 0.9:
+        # avoid switch for known finding C10-iterator-that-is-a-collection: most cursor cases use the other hints
+        case['hint'] = rng.choice([h for h in HINTS if h not in CURSOR_KNOWN_HINTS])
+    return case
 
 
 def generate(rng, run, tier):
@@ -96,8 +104,9 @@ def build(case):
     k = case['kind']
     items = _items(case)
     hashable = [i for i in items if not isinstance(i, list)]
-    if k in ('OneShot', 'OneShotExplode', 'SizedOneShot', 'SizedOneShotExplode', 'SizedReversibleOneShot'):
-        cls = spies.OneShot if k.startswith('OneShot') else (spies.SizedReversibleOneShot if 'Reversible' in k else spies.SizedOneShot)
+    if k in ('OneShot', 'OneShotExplode', 'SizedOneShot', 'SizedOneShotExplode', 'SizedReversibleOneShot', 'CursorOneShot', 'CursorOneShotExplode'):
+        cls = spies.OneShot if k.startswith('OneShot') else spies.CursorOneShot if k.startswith('Cursor') else (
+            spies.SizedReversibleOneShot if 'Reversible' in k else spies.SizedOneShot)
         x = cls(items, explode=k.endswith('Explode'))
 
         def chk(o):
@@ -207,7 +216,7 @@ def _mut(o):
     return None
 
 
-ONESHOT_KINDS = ('OneShot', 'OneShotExplode', 'SizedOneShot', 'SizedOneShotExplode', 'SizedReversibleOneShot', 'generator', 'map', 'zip', 'enumerate', 'reversed', 'StringIO')
+ONESHOT_KINDS = ('CursorOneShot', 'CursorOneShotExplode', 'OneShot', 'OneShotExplode', 'SizedOneShot', 'SizedOneShotExplode', 'SizedReversibleOneShot', 'generator', 'map', 'zip', 'enumerate', 'reversed', 'StringIO')
 
 
 def execute(case):
@@ -277,11 +286,21 @@ def shrink(case, violation):
         yield dict(case, item='int')
 
 
+def _sig_cursor(case, v):
+    """Known finding C10-iterator-that-is-a-collection: a one-shot iterator that also defines __len__ and __contains__ loses its
+    first item (or, if advancing it raises, lets that exception escape) under the Iterable / Container / Collection hints."""
+    if not (case.get('kind', '').startswith('CursorOneShot') and case.get('hint') in CURSOR_KNOWN_HINTS):
+        return False
+    d = v.get('detail', '')
+    return ((v.get('kind') == 'consumed_or_mutated' and 'one-shot stream advanced 1 times' in d)
+            or (v.get('kind') == 'unexpected_exception' and 'stream advanced by a type-check' in d))
+
+
 def _sig_chainmap_dd(case, v):
     return case.get('kind') == 'ChainMapDD' and v.get('kind') == 'consumed_or_mutated' and 'defaultdict inside the ChainMap' in v.get('detail', '')
 
 
-SIGNATURES = {'chainmap_over_defaultdict': _sig_chainmap_dd}
+SIGNATURES = {'chainmap_over_defaultdict': _sig_chainmap_dd, 'iterator_that_is_a_collection': _sig_cursor}
 
 
 def describe(case):
